@@ -2,6 +2,7 @@ package engine
 
 import (
 	"fmt"
+	"strconv"
 	"strings"
 	"testing"
 
@@ -27,6 +28,7 @@ var c13Combos = []struct{ proto, codec, method string }{
 	{"http", "json", "unary"}, {"http", "json", "client"}, {"http", "json", "server"}, {"http", "json", "bidi"},
 	{"http", "proto", "unary"}, {"http", "proto", "client"}, {"http", "proto", "server"}, {"http", "proto", "bidi"},
 	{"http", "body", "files"}, {"http", "body", "files"},
+	{"http", "json", "bidisel"}, {"http", "proto", "bidisel"}, {"http", "json", "unarysel"}, {"http", "proto", "unarysel"},
 	{"ws", "json", "chat"}, {"ws", "json", "bidi"},
 }
 
@@ -39,6 +41,10 @@ func genMixedRequest(r *core.Rand, id int, limit int, allowFaults bool) ReqSpec 
 		sp.PathVar = r.PickS("lobby", "a", "room-1")
 	case "files":
 		sp.PathVar = r.PickS("cat.jpg", "a.bin")
+	case "bidisel":
+		sp.PathVar = r.PickS("a", "msg-1")
+	case "unarysel":
+		sp.PathVar = strconv.Itoa(r.Intn(100000))
 	}
 	if sp.Proto == "ws" {
 		sp.WSClose = r.PickS("normal", "normal", "none")
@@ -69,6 +75,9 @@ func genMixedRequest(r *core.Rand, id int, limit int, allowFaults bool) ReqSpec 
 			size = 300
 		}
 		sp.Msgs = append(sp.Msgs, MsgSpec{Size: size, Seed: r.U64() >> 8, Plain: sp.Compress && sp.Proto != "http" && r.Chance(1, 4)})
+	}
+	if sp.Method == "unarysel" && sp.Msgs[0].Size == 0 {
+		sp.Msgs[0].Size = 1 // an empty protobuf body is "no body" for the mux (C03's subject)
 	}
 	if sp.Codec == "body" {
 		size := r.Pick(0, 1, 63, 64, 65, 1000, limit-1, limit, limit+1, 2*limit+1)
